@@ -486,6 +486,9 @@ pub fn cmd_mate_facts(args: &Args) {
     let mut w = std::io::BufWriter::new(std::fs::File::create(&out).unwrap());
     let mut last_fen = String::new();
     let mut last_facts = String::new();
+    let mut last_cut_fen = String::new();
+    let mut last_cut_depth = 0u8;
+    let mut last_cut = (0u64, 0u64);
     for (i, c) in cases.iter().enumerate() {
         let fen = c["fen"].as_str().unwrap();
         let id = c["id"].as_u64().unwrap_or(i as u64);
@@ -499,13 +502,29 @@ pub fn cmd_mate_facts(args: &Args) {
             last_facts = facts(&mut board);
             last_fen = fen.to_string();
         }
+        // "cut": f in (0, 1): the depth-limited search is interrupted by a node budget placed that far between the end
+        // of the iteration before the last one and the end of the search (the earlier iterations are complete)
+        let mut budget: Option<u64> = None;
+        if let Some(f) = c["cut"].as_f64() {
+            if fen != last_cut_fen || depth != last_cut_depth {
+                let a = run_search(&board, depth - 1, None, None, None, "fresh", false);
+                let b = run_search(&board, depth, None, None, None, "fresh", false);
+                last_cut = (a.nodes, b.nodes);
+                last_cut_fen = fen.to_string();
+                last_cut_depth = depth;
+            }
+            let (n3, n4) = last_cut;
+            if n4 > n3 + 1 {
+                budget = Some(n3 + 1 + ((n4 - n3 - 1) as f64 * f) as u64);
+            }
+        }
         clear_tt();
         let mut panicked = false;
         for d in &pre {
             let o = run_search(&board, *d, None, None, None, "keep", false);
             panicked |= o.panicked;
         }
-        let o = run_search(&board, depth, None, None, None, "keep", false);
+        let o = run_search(&board, depth, budget, None, None, "keep", false);
         panicked |= o.panicked;
         let pre_s: Vec<String> = pre.iter().map(|d| d.to_string()).collect();
         // does the chosen move keep a forced mate of at most three moves (exhaustive 5-ply analysis after it)?
@@ -518,9 +537,10 @@ pub fn cmd_mate_facts(args: &Args) {
         };
         writeln!(
             w,
-            "{{\"ev\":\"mate\",\"id\":{id},\"fen\":\"{fen}\",\"chars\":{},\"depth\":{depth},\"pre\":[{}],\"best\":{},\"score\":{},\"panicked\":{panicked},\"keeps3\":{keeps3},\"facts\":{}}}",
+            "{{\"ev\":\"mate\",\"id\":{id},\"fen\":\"{fen}\",\"chars\":{},\"depth\":{depth},\"pre\":[{}],\"budget\":{},\"best\":{},\"score\":{},\"panicked\":{panicked},\"keeps3\":{keeps3},\"facts\":{}}}",
             chars_json(fen),
             pre_s.join(","),
+            budget.map_or(-1i64, |b| b as i64),
             o.best.map_or("\"none\"".to_string(), |p| format!("\"{}\"", p.to_notation())),
             opt(o.score),
             last_facts
@@ -731,7 +751,12 @@ pub fn cmd_mate_cands(args: &Args) {
     let seeds_dir = args.str("seeds", "seeds");
     let fens = crate::h_chess::read_fens(&seeds_dir, &["bench.fen", "perft.fen", "mates.fen"]);
     let mut rng = Rng::new(seed);
-    let quota = [want / 4, want / 2, want - want / 4 - want / 2]; // mate in 1, mate in 2, threat
+    let only = args.str("only", "");
+    let quota = if only == "m2" {
+        [0, want, 0]
+    } else {
+        [want / 4, want / 2, want - want / 4 - want / 2] // mate in 1, mate in 2, threat
+    };
     let mut got = [0usize; 3];
     let mut seen = std::collections::HashSet::new();
     let mut tries = 0usize;
